@@ -120,18 +120,15 @@ Section S.
   Qed.
 
   Lemma serialize_args ser t v log :
-    (forall f, var_ser S t = Some f -> String.eqb f "x" = false /\ is_item_name f = false) ->
+    (forall f, var_ser S t = Some f -> String.eqb f "x" = false) ->
     occ_ser S t false v = Some log -> arg_log ser S t v = Some log.
   Proof.
     intros Hn H. unfold arg_log. pose proof (var_ser_cfg t) as Hv.
     destruct (var_ser S t) as [f|] eqn:Ef.
-    - destruct (Hn f eq_refl) as [Hx Hi].
+    - pose proof (Hn f eq_refl) as Hx.
       rewrite (eval_gen ser f) with (v := v).
       + destruct (ser_arg_log ser f t false true v log (eq_sym Hv) H) as [w Hw]. simpl in Hw. simpl Nat.eqb.
         rewrite Hw. reflexivity.
-      + intro d. destruct (String.eqb f (item_name d)) eqn:E; [|reflexivity].
-        apply String.eqb_eq in E. subst f. unfold is_item_name in Hi.
-        unfold item_name in Hi. simpl in Hi. destruct (z_to_string (Z.of_nat d)); discriminate.
       + reflexivity.
       + simpl. rewrite Hx. reflexivity.
       + reflexivity.
@@ -139,16 +136,13 @@ Section S.
   Qed.
 
   Lemma serialize_args_omitted ser t :
-    (forall f, var_ser S t = Some f -> String.eqb f "x" = false /\ is_item_name f = false) ->
+    (forall f, var_ser S t = Some f -> String.eqb f "x" = false) ->
     is_nonnull t = false -> arg_log ser S t PUnset = Some [].
   Proof.
     intros Hn Ht. unfold arg_log. destruct (var_ser S t) as [f|] eqn:Ef; [|reflexivity].
-    destruct (Hn f eq_refl) as [Hx Hi].
+    pose proof (Hn f eq_refl) as Hx.
     rewrite (eval_gen ser f) with (v := PUnset).
     - simpl Nat.eqb. rewrite ser_arg_unset; [reflexivity|exact Ht].
-    - intro d. destruct (String.eqb f (item_name d)) eqn:E; [|reflexivity].
-      apply String.eqb_eq in E. subst f. unfold is_item_name in Hi.
-      unfold item_name in Hi. simpl in Hi. destruct (z_to_string (Z.of_nat d)); discriminate.
     - reflexivity.
     - simpl. rewrite Hx. reflexivity.
     - reflexivity.
